@@ -205,16 +205,53 @@ def check(ctx, rep):
     good = False
     if nse is not None:
         r = strip(nse.ret)
-        good = r[0] == "after" and util.is_call(r[1], "rc4::Rc4::key_scheduling_algorithm") and strip(r[1][2][1]) == ("param", 1) and r[3][0] == "agg" and all(o[:2] == ("int", 0) or (o[0] == "repeat" and o[1][:2] == ("int", 0)) for o in r[3][4])
+        good = r[0] == "after" and util.is_call(r[1], "rc4::Rc4::key_scheduling_algorithm") and strip(r[1][2][1]) == ("param", 1) and r[3][0] == "agg" and all(o[:2] == ("int", 0) or (o[0] == "repeat" and o[1][:2] == ("int", 0)) or identity_table(o) for o in r[3][4])
         if not good and r[0] == "agg" and r[2] == "rc4::Rc4":
             # the KSA as a function returning the table: Rc4 { state: KSA(key), i: 0, j: 0 }
             tabs = [o for o in r[4] if util.is_call(strip(o), "rc4::Rc4::key_scheduling_algorithm") and tuple(strip(a) for a in strip(o)[2]) == (("param", 1),)]
             zeros = [o for o in r[4] if o[:2] == ("int", 0)]
             good = len(tabs) == 1 and len(zeros) == len(r[4]) - 1
-    rep.check(good, "state-writers", "rc4::Rc4::new", "init", "new = KSA(key) over a zeroed state, counters 0", "Rc4::new is not {zero state, i = j = 0} followed by the KSA over the whole key")
+    rep.check(good, "state-writers", "rc4::Rc4::new", "init", "new = KSA(key) over a fresh state (zeroed or identity table), counters 0", "Rc4::new is not {fresh state, i = j = 0} followed by the KSA over the whole key")
+
+
+def identity_table(t):
+    """t is the explicit array [0, 1, .. 255]"""
+    t = strip(t)
+    if t[0] == "agg" and t[1] == "array" and len(t[4]) == 256:
+        return all(arith.norm(x) == I(k) for k, x in enumerate(t[4]))
+    if t[0] == "bytes":
+        return bytes(t[1]) == bytes(range(256))
+    return False
+
+
+def new_initial_state(ctx):
+    """(initial table value, counters zero?, key passed on whole?) of Rc4::new, for the two
+    spellings of the KSA (method on a fresh object / function returning the table)"""
+    nse = ctx.wrap.run("rc4::Rc4::new")
+    if nse is None:
+        return None
+    r = strip(nse.ret)
+    fs = ctx.fb.adt_fields("rc4::Rc4")
+    si = [i for i, f in enumerate(fs) if ctx.fb.ty(f["ty"]).k == "array"]
+    if not si:
+        return None
+    if r[0] == "after" and util.is_call(r[1], "rc4::Rc4::key_scheduling_algorithm") and r[3][0] == "agg":
+        ops = r[3][4]
+        zeros = all(o[:2] == ("int", 0) for k, o in enumerate(ops) if k != si[0])
+        return ops[si[0]], zeros, strip(r[1][2][1]) == ("param", 1), "method"
+    if r[0] == "agg" and r[2] == "rc4::Rc4":
+        tab = strip(r[4][si[0]])
+        zeros = all(o[:2] == ("int", 0) for k, o in enumerate(r[4]) if k != si[0])
+        if util.is_call(tab, "rc4::Rc4::key_scheduling_algorithm"):
+            return None, zeros, tuple(strip(a) for a in tab[2]) == (("param", 1),), "function"
+    return None
 
 
 def ksa(ctx, rep):
+    """KSA = identity table, then for n = 0..256 in order with the key bytes cycled:
+    j = j +8 S[n] +8 key byte; swap(S[n], S[j]); j starts at 0.  The identity table may be
+    written by a first pass of the KSA or handed in by Rc4::new; the mixing pass may be a
+    for_each closure over captured (j, S), a fold with accumulator j, or a for loop."""
     fn = "rc4::Rc4::key_scheduling_algorithm"
     se = ctx.flat.run(fn)
     if se is None:
@@ -222,91 +259,128 @@ def ksa(ctx, rep):
         return
     body = se.body
     calls = [se.term_info[b] for b in sorted(se.term_info) if se.term_info[b].get("k") == "call"]
-    fe = [c for c in calls if c["name"] == "std::iter::Iterator::for_each"]
-    if len(fe) == 0:
+    drivers = [c for c in calls if c["name"] == "std::iter::Iterator::for_each" or c["name"].endswith("as std::iter::Iterator>::fold") or c["name"] == "std::iter::Iterator::fold"]
+    if len(drivers) == 0:
         return ksa_loops(ctx, rep, se)
-    if len(fe) != 2:
-        rep.violation("ksa", fn, "shape", "expected two for_each passes (identity init, key mixing), found %d" % len(fe), body.loc())
-        return
     form = ksa_form(ctx, se)
     if form is None:
         rep.violation("ksa", fn, "shape", "the KSA neither works on self.state nor returns a local [u8; 256] table", body.loc())
         return
     key_param, table_loc, in_self = form
-    # pass 1: self.state.iter_mut().enumerate().for_each(|(i, x)| *x = i as u8)
-    it1 = strip(fe[0]["args"][0])
-    ok1 = util.is_call(it1, "std::iter::Iterator::enumerate") and util.is_call(it1[2][0], "core::slice::<impl [T]>::iter_mut")
-    if ok1:
-        im = se.term_info.get(it1[2][0][3][1], {})
-        la = im.get("locargs", (("?",),))[0]
-        ok1 = la[0] == "ref" and la[1] == table_loc
-    c0 = ctx.flat.run(fn + "::{closure#0}")
-    init_ok = False
-    if c0 is not None:
-        fin = list(c0.final_states.values())
-        if len(fin) == 1:
-            st = {k: v for k, v in fin[0].items() if k[0] == "deref"}
-            # *x := (i as u8) with (i, x) = the item tuple (closure arg 2)
-            for root, v in st.items():
-                if strip(root) == ("field", ("param", 2), 1) and v == ("cast", "IntToInt", ("field", ("param", 2), 0), "u8"):
-                    init_ok = len(st) == 1
-    rep.check(ok1 and init_ok, "ksa", fn, "identity-init", "S[n] = n for every n (enumerate over the whole state)", "state initialisation is not S[n] = n over iter_mut().enumerate()", body.loc())
-    # pass 2: (0..256).zip(key.iter().cycle()).for_each(closure#1{&mut j, &mut self}) with j = 0
-    it2 = strip(fe[1]["args"][0])
-    ok2 = False
-    if util.is_call(it2, "std::iter::Iterator::zip"):
-        a, b = it2[2]
+
+    def is_mix_iter(it):
+        it = strip(it)
+        if not util.is_call(it, "std::iter::Iterator::zip"):
+            return False
+        a, b = it[2]
         rng_ok = a[0] == "agg" and a[2] == "std::ops::Range" and tuple(x[:2] for x in a[4]) == (("int", 0), ("int", 256))
         cyc_ok = util.is_call(b, "std::iter::Iterator::cycle") and util.is_call(b[2][0], "core::slice::<impl [T]>::iter") and strip(b[2][0][2][0]) == ("param", key_param)
-        ok2 = rng_ok and cyc_ok
-    rep.check(ok2, "ksa", fn, "index-and-key-schedule", "i = 0..256 in order zipped with key bytes cycled (key[i mod len])", "mixing pass does not iterate (0..256) zipped with the cycled key", body.loc())
-    cl = fe[1]["locargs"][1]
+        return rng_ok and cyc_ok
+
+    mix = [c for c in drivers if is_mix_iter(c["args"][0])]
+    init = [c for c in drivers if c not in mix]
+    # ---- identity table
+    init_ok = False
+    how = "no identity initialisation"
+    if len(init) == 1 and init[0]["name"] == "std::iter::Iterator::for_each":
+        it1 = strip(init[0]["args"][0])
+        ok1 = util.is_call(it1, "std::iter::Iterator::enumerate") and util.is_call(it1[2][0], "core::slice::<impl [T]>::iter_mut")
+        if ok1:
+            im = se.term_info.get(it1[2][0][3][1], {})
+            la = im.get("locargs", (("?",),))[0]
+            ok1 = la[0] == "ref" and la[1] == table_loc
+        cl0 = init[0]["locargs"][1]
+        c0 = ctx.flat.run(cl0[2]) if cl0[0] == "agg" and cl0[1] == "closure" else None
+        if c0 is not None and ok1:
+            fin = list(c0.final_states.values())
+            if len(fin) == 1:
+                st = {k: v for k, v in fin[0].items() if k[0] == "deref"}
+                for root, v in st.items():
+                    if strip(root) == ("field", ("param", 2), 1) and v == ("cast", "IntToInt", ("field", ("param", 2), 0), "u8"):
+                        init_ok = len(st) == 1
+        how = "first pass: S[n] = n over iter_mut().enumerate()"
+        # the identity pass must come first
+        init_ok = init_ok and bool(mix) and init[0]["site"][1] < mix[0]["site"][1] and cfg.must_pass_block(body, init[0]["site"][1], mix[0]["site"][1])
+    elif len(init) == 0:
+        ni = new_initial_state(ctx)
+        if ni is not None and ni[0] is not None and in_self:
+            init_ok = identity_table(ni[0])
+            how = "Rc4::new hands in the identity table [0, 1, .. 255]"
+    rep.check(init_ok, "ksa", fn, "identity-init", "S[n] = n for every n before mixing (%s)" % how, "state initialisation is not S[n] = n for every n before the mixing pass (%s)" % how, body.loc())
+    # ---- mixing pass
+    rep.check(len(mix) == 1, "ksa", fn, "index-and-key-schedule", "i = 0..256 in order zipped with key bytes cycled (key[i mod len])", "mixing pass does not iterate (0..256) zipped with the cycled key", body.loc())
+    if len(mix) != 1:
+        return
+    m = mix[0]
+    is_fold = m["name"].endswith("fold")
+    cl = m["locargs"][2 if is_fold else 1]
     j0_ok = False
-    if cl[0] == "agg" and cl[1] == "closure" and len(cl[4]) == 2:
-        jref = cl[4][0]
-        if jref[0] == "ref" and jref[1][0] == "local":
-            # value of j at the call: constant 0
-            site = fe[1]["site"]
-            st = se.in_state.get(site[1], {})
-            j0 = st.get(jref[1])
-            j0_ok = j0 is not None and j0[:2] == ("int", 0)
-        self_ok = cl[4][1][0] == "ref" and cl[4][1][1] == (("local", 1) if in_self else table_loc)
-        j0_ok = j0_ok and self_ok
-    rep.check(j0_ok, "ksa", fn, "j-starts-at-0", "j = 0 before mixing; closure captures (&mut j, &mut self)", "mixing closure is not started with j = 0 over this state", body.loc())
-    c1 = ctx.flat.run(fn + "::{closure#1}")
+    c1 = None
     good = False
     desc = "?"
-    if c1 is not None:
-        fin = list(c1.final_states.values())
-        if len(fin) == 1:
-            st = {k: v for k, v in fin[0].items() if k[0] == "deref"}
-            env1 = ("deref", ("param", 1))
-            jloc = strip(("deref", ("field", env1, 0)))           # **env.0
-            selfobj = strip(("deref", ("deref", ("field", env1, 1))))  # ***env.1
-            fs = ctx.fb.adt_fields("rc4::Rc4")
-            si = [i for i, f in enumerate(fs) if ctx.fb.ty(f["ty"]).k == "array"]
-            s_term = ("field", ("field", ("param", 1), 1), si[0]) if in_self and si else ("field", ("param", 1), 1)
-            envm = {("field", ("param", 1), 0): "j", s_term: "S", ("field", ("param", 2), 0): "n", ("field", ("param", 2), 1): "k"}
-            want_j = wadd(wadd(S("j"), ("idx", S("S"), S("n"))), S("k"))
-            want_S = ("swap", S("S"), S("n"), want_j)
-            got_j = got_S = None
-            others = 0
-            for root, v in st.items():
-                sr = strip(root)
-                if sr == ("field", ("param", 1), 0):
-                    got_j = arith.norm(v, envm)
-                elif sr == ("field", ("param", 1), 1):
-                    if in_self and v[0] == "upd" and v[2] == ("f", si[0]):
-                        got_S = arith.norm(v[3], envm)
-                    elif not in_self:
-                        got_S = arith.norm(v, envm)
+    if cl[0] == "agg" and cl[1] == "closure":
+        caps = cl[4]
+        st_call = se.in_state.get(m["site"][1], {})
+
+        def cap_target(c):
+            """the place a captured `&mut` leads to, looking through a local that itself holds a reference"""
+            if c[0] != "ref":
+                return None
+            L = c[1]
+            if L == ("local", 1) and in_self:
+                return table_loc[1]          # &mut self
+            if L[0] == "local":
+                v = se.read(st_call, L)
+                if v[0] == "ref":
+                    return v[1]              # a local holding `&mut self.state`
+            return L
+
+        tab_caps = [k for k, c in enumerate(caps) if cap_target(c) in (table_loc, table_loc[1] if in_self else None)]
+        j_caps = [k for k, c in enumerate(caps) if c[0] == "ref" and c[1][0] == "local" and k not in tab_caps]
+        if is_fold:
+            j0_ok = strip(m["args"][1])[:2] == ("int", 0) and len(tab_caps) == 1 and len(caps) == 1
+        else:
+            if len(j_caps) == 1 and len(tab_caps) == 1 and len(caps) == 2:
+                j0 = st_call.get(caps[j_caps[0]][1])
+                j0_ok = j0 is not None and j0[:2] == ("int", 0)
+        c1 = ctx.flat.run(cl[2])
+        if c1 is not None and j0_ok:
+            fin = list(c1.final_states.values())
+            if len(fin) == 1:
+                st = {k: v for k, v in fin[0].items() if k[0] == "deref"}
+                fs = ctx.fb.adt_fields("rc4::Rc4")
+                si = [i for i, f in enumerate(fs) if ctx.fb.ty(f["ty"]).k == "array"]
+                tc = tab_caps[0]
+                whole_self = cap_target(caps[tc]) == (table_loc[1] if in_self else None) and in_self
+                s_term = ("field", ("field", ("param", 1), tc), si[0]) if whole_self else ("field", ("param", 1), tc)
+                item = ("param", 3) if is_fold else ("param", 2)
+                envm = {s_term: "S", ("field", item, 0): "n", ("field", item, 1): "k"}
+                if is_fold:
+                    envm[("param", 2)] = "j"
+                else:
+                    envm[("field", ("param", 1), j_caps[0])] = "j"
+                want_j = wadd(wadd(S("j"), ("idx", S("S"), S("n"))), S("k"))
+                want_S = ("swap", S("S"), S("n"), want_j)
+                got_j = arith.norm(c1.ret, envm) if is_fold else None
+                got_S = None
+                others = 0
+                for root, v in st.items():
+                    sr = strip(root)
+                    if not is_fold and sr == ("field", ("param", 1), j_caps[0]):
+                        got_j = arith.norm(v, envm)
+                    elif sr == ("field", ("param", 1), tc):
+                        if whole_self and v[0] == "upd" and v[2] == ("f", si[0]):
+                            got_S = arith.norm(v[3], envm)
+                        elif not whole_self:
+                            got_S = arith.norm(v, envm)
+                        else:
+                            others += 1
                     else:
                         others += 1
-                else:
-                    others += 1
-            good = got_j == want_j and got_S == want_S and others == 0
-            desc = "j' = %s; S' = %s" % (arith.show(got_j) if got_j else "?", arith.show(got_S)[:120] if got_S else "?")
-    rep.check(good, "ksa", fn + "::{closure#1}", "mixing-step", "j' = j +8 S[n] +8 key byte; swap(S[n], S[j'])", "KSA mixing step is " + desc, c1.body.loc() if c1 else None)
+                good = got_j == want_j and got_S == want_S and others == 0
+                desc = "j' = %s; S' = %s" % (arith.show(got_j) if got_j else "?", arith.show(got_S)[:120] if got_S else "?")
+    rep.check(j0_ok, "ksa", fn, "j-starts-at-0", "j = 0 before mixing; the closure works on (j, this table)", "mixing closure is not started with j = 0 over this state", body.loc())
+    rep.check(good, "ksa", cl[2] if cl[0] == "agg" else fn, "mixing-step", "j' = j +8 S[n] +8 key byte; swap(S[n], S[j'])", "KSA mixing step is " + desc, c1.body.loc() if c1 else None)
 
 
 def skip_helper(ctx, fn):
